@@ -530,7 +530,7 @@ func reportViolation(t *testing.T, e *Engine, seed uint64, prop, tier string, re
 // neither parks nor finishes: a spin. It dumps all goroutine stacks, records
 // the seed and exits 3; the driver decides whether library code was spinning.
 func startWatchdog(out *WorkerOut, write func()) {
-	limit := time.Duration(envInt("VERIF_WATCHDOG_S", 30)) * time.Second
+	limit := time.Duration(envInt("VERIF_WATCHDOG_S", 90)) * time.Second
 	go func() {
 		last := Progress.Load()
 		lastChange := time.Now()
